@@ -289,7 +289,12 @@ fn inline_record<T: DiffableStr + ?Sized>(case: i64, alg: Algorithm, mode: &str,
 
 /// line texts in which replaced lines are similar (so that the inline differ engages)
 fn similar_line_pair(rng: &mut Rng) -> (String, String) {
-    let words = ["foo", "bar", "baz", "\u{e9}t\u{e9}", "x", "(y)", "1.5", "caf\u{e9}", "a\u{301}", "=="];
+    // (several words differ only in a multi-byte character whose UTF-8 encodings share their
+    // leading bytes: e-acute / e-grave, two CJK characters, Cyrillic vowels)
+    let words = [
+        "foo", "bar", "baz", "\u{e9}t\u{e9}", "x", "(y)", "1.5", "caf\u{e9}", "a\u{301}", "==", "caf\u{e8}", "\u{65e5}", "\u{672c}",
+        "\u{43c}\u{438}\u{440}", "\u{43c}\u{43e}\u{440}", "foos",
+    ];
     let seps = [" ", " ", "  ", "\t", "\u{a0}"];
     let terms = ["\n", "\n", "\r\n", "\r"];
     let nl = rng.range(1, 5);
